@@ -1564,28 +1564,47 @@ where
     D::Doc: Clone + Pretty<'a, D, A>,
     A: Clone,
 {
-    // Collect items between delimiters, excluding commas
-    let mut items = Vec::new();
+    // Collect items between delimiters, excluding commas.
+    // An item is everything between two commas: it may consist of several children
+    // (`x: float`, `y = 1.0`, `a = pat`, `a: float`).
+    let mut items: Vec<DocBuilder<'a, D, A>> = Vec::new();
+    let mut current: Option<DocBuilder<'a, D, A>> = None;
     let mut open_doc = allocator.nil();
     let mut close_doc = allocator.nil();
     let mut found_open = false;
+    // delimiters that belong to an item (the parenthesised type in `((float)->float, float)`)
+    let mut depth = 0usize;
 
     for &child in children.iter() {
         let node = ctx.arena.get(child);
         if let mimium_lang::compiler::parser::green::GreenNode::Token { token_index, .. } = node {
             let token = &ctx.tokens[*token_index];
             match token.kind {
-                TokenKind::ParenBegin | TokenKind::BlockBegin | TokenKind::ArrayBegin => {
+                TokenKind::ParenBegin | TokenKind::BlockBegin | TokenKind::ArrayBegin
+                    if !found_open =>
+                {
                     open_doc = emit_token_with_trivia(*token_index, ctx, allocator);
                     found_open = true;
                     continue;
                 }
+                TokenKind::ParenBegin | TokenKind::BlockBegin | TokenKind::ArrayBegin => {
+                    depth += 1;
+                }
+                TokenKind::ParenEnd | TokenKind::BlockEnd | TokenKind::ArrayEnd if depth > 0 => {
+                    depth -= 1;
+                }
                 TokenKind::ParenEnd | TokenKind::BlockEnd | TokenKind::ArrayEnd => {
+                    if let Some(cur) = current.take() {
+                        items.push(cur);
+                    }
                     close_doc = emit_token_with_trivia(*token_index, ctx, allocator);
                     continue;
                 }
-                TokenKind::Comma => {
+                TokenKind::Comma if depth == 0 => {
                     // Skip commas - we'll add them with proper breaking
+                    if let Some(cur) = current.take() {
+                        items.push(cur);
+                    }
                     continue;
                 }
                 _ => {}
@@ -1593,7 +1612,11 @@ where
         }
 
         if found_open {
-            items.push(cst_to_doc(child, ctx, allocator));
+            let doc = cst_to_doc(child, ctx, allocator);
+            current = Some(match current.take() {
+                Some(cur) => cur.append(doc),
+                None => doc,
+            });
         }
     }
 
